@@ -8,6 +8,7 @@ package main
 import (
 	"fmt"
 	"go/constant"
+	"regexp"
 	"go/token"
 	"go/types"
 	"strings"
@@ -172,23 +173,24 @@ func runFT(c *Ctx, rule string, which map[string]bool) {
 				if optional {
 					want = "Defs"
 				}
-				f := lenOfRecvField(fi.write, args[4])
+				got := symLenField(args[4])
 				switch {
-				case f == nil:
+				case got == "":
 					r.bad(rule, key, u.Pos(call.Pos()), "the page's value count is "+symExpr(args[4], 0)+", want len(f."+want+")")
-				case f.Name() != want:
-					r.bad(rule, key, u.Pos(call.Pos()), fmt.Sprintf("the page's value count is len(f.%s), want len(f.%s): num_values of a page counts every level entry, nulls included, for a column with levels, and every value for a required column — the reader cuts the decoded levels to it", f.Name(), want))
+				case got != want:
+					r.bad(rule, key, u.Pos(call.Pos()), fmt.Sprintf("the page's value count is len(f.%s), want len(f.%s): num_values of a page counts every level entry, nulls included, for a column with levels, and every value for a required column — the reader cuts the decoded levels to it", got, want))
 				default:
 					r.ok(rule, key, u.Pos(call.Pos()), "num_values = len(f."+want+")")
 				}
 				// bool columns: the payload has ceil(len(vals)/8) bytes
 				if isBool {
 					k2 := short + ".Write bool payload size"
-					ms, _ := args[3].(*ssa.MakeSlice)
+					data, dfn := throughHelperResult(u, fi.write, args[3])
+					ms, _ := data.(*ssa.MakeSlice)
 					switch {
 					case ms == nil:
 						r.undecided(rule, k2, u.Pos(call.Pos()), "the bool payload is not a freshly made byte slice")
-					case !isCeilDiv8(fi.write, ms.Len):
+					case !symCeilDiv8(ms.Len) && !isCeilDiv8(dfn, ms.Len):
 						r.bad(rule, k2, u.Pos(ms.Pos()), "the bool payload has "+symExpr(ms.Len, 0)+" bytes, want ceil(len(f.vals)/8): a page's value section has exactly the length its value count implies (one spare byte shifts every later page of the chunk)")
 					default:
 						r.ok(rule, k2, u.Pos(ms.Pos()), "ceil(len(f.vals)/8) bytes")
@@ -201,104 +203,82 @@ func runFT(c *Ctx, rule string, which map[string]bool) {
 		if which["delta"] && fi.add != nil && optional {
 			key := short + ".Add"
 			pos := u.Pos(fi.add.Pos())
-			// the shredder call: dynamic call through the `read` field
-			var rd *ssa.Call
-			for _, b := range fi.add.Blocks {
-				for _, ins := range b.Instrs {
-					if cl, ok := ins.(*ssa.Call); ok && !cl.Call.IsInvoke() && cl.Call.StaticCallee() == nil {
-						if f := recvFieldLoad(fi.add, cl.Call.Value); f != nil && f.Name() == "read" {
-							rd = cl
+			m := symExec(fi.add)
+			if !m.ok {
+				r.undecided(rule, key, pos, "Add is not a straight-line method")
+			} else {
+				var bad []string
+				// the shredder call: a dynamic call through the `read` field
+				rdSym := ""
+				var rdArgs []string
+				nAdd := 0
+				var addArgs []string
+				for _, cl := range m.calls {
+					if !cl.Call.IsInvoke() && cl.Call.StaticCallee() == nil {
+						if _, isB := cl.Call.Value.(*ssa.Builtin); !isB && lastComp(m.sym(cl.Call.Value)) == "read" && strings.HasPrefix(m.sym(cl.Call.Value), "old(recv.") {
+							rdSym = m.sym(cl)
+							for _, a := range cl.Call.Args {
+								rdArgs = append(rdArgs, m.sym(a))
+							}
+						}
+					}
+					if sc := cl.Call.StaticCallee(); sc != nil && sc.Name() == "add" {
+						nAdd++
+						addArgs = nil
+						for _, a := range callArgs(&cl.Call)[1:] {
+							addArgs = append(addArgs, m.sym(a))
 						}
 					}
 				}
-			}
-			if rd == nil {
-				r.undecided(rule, key, pos, "Add does not call the column's shredder")
-			} else {
-				var bad []string
 				names := []string{"vals", "Defs", "Reps"}
-				if len(rd.Call.Args) != 4 {
-					bad = append(bad, "unexpected shredder arity")
+				if rdSym == "" {
+					bad = append(bad, "Add does not call the column's shredder")
 				} else {
-					if _, ok := rd.Call.Args[0].(*ssa.Parameter); !ok {
+					if len(rdArgs) != 4 || !strings.HasPrefix(rdArgs[0], "param:") {
 						bad = append(bad, "the shredder is not given the caller's record")
 					}
 					for i, n := range names {
-						if f := recvFieldLoad(fi.add, rd.Call.Args[i+1]); f == nil || f.Name() != n {
-							bad = append(bad, fmt.Sprintf("shredder argument %d is %s, want f.%s", i+2, symExpr(rd.Call.Args[i+1], 0), n))
+						if i+1 < len(rdArgs) && !(strings.HasPrefix(rdArgs[i+1], "old(recv.") && lastComp(rdArgs[i+1]) == n) {
+							bad = append(bad, fmt.Sprintf("shredder argument %d is %s, want f.%s", i+2, rdArgs[i+1], n))
 						}
 					}
-				}
-				// stores back
-				stored := map[string]bool{}
-				for _, b := range fi.add.Blocks {
-					for _, ins := range b.Instrs {
-						st, ok := ins.(*ssa.Store)
-						if !ok {
-							continue
-						}
-						f := fieldOf(st.Addr)
-						if f == nil {
-							continue
-						}
-						for i, n := range names {
-							if f.Name() == n {
-								if ex, ok := st.Val.(*ssa.Extract); ok && ex.Tuple == ssa.Value(rd) && ex.Index == i {
-									stored[n] = true
-								} else {
-									bad = append(bad, "f."+n+" is set to "+symExpr(st.Val, 0)+", want result "+fmt.Sprint(i)+" of the shredder")
-								}
-							}
+					// what the column keeps afterwards
+					kept := map[string]string{}
+					for a, v := range m.mem {
+						if strings.HasPrefix(a, "recv.") {
+							kept[lastComp(a)] = v
 						}
 					}
-				}
-				for _, n := range names {
-					if !stored[n] {
-						bad = append(bad, "f."+n+" is not updated from the shredder's result")
+					for i, n := range names {
+						want := fmt.Sprintf("%s#%d", rdSym, i)
+						switch got, ok := kept[n]; {
+						case !ok:
+							bad = append(bad, "f."+n+" is not updated from the shredder's result")
+						case got != want:
+							bad = append(bad, "f."+n+" is set to "+got+", want result "+fmt.Sprint(i)+" of the shredder")
+						}
 					}
-				}
-				// statistics: add(vals'[len(f.vals):], defs'[len(f.Defs):]) with the lengths taken before the update
-				adds := 0
-				for _, b := range fi.add.Blocks {
-					for _, ins := range b.Instrs {
-						cl, ok := ins.(*ssa.Call)
-						if !ok || cl.Call.StaticCallee() == nil || cl.Call.StaticCallee().Name() != "add" {
-							continue
-						}
-						adds++
-						args := callArgs(&cl.Call)
-						if len(args) != 3 {
-							bad = append(bad, "unexpected stats.add arity")
-							continue
-						}
+					// statistics
+					switch {
+					case nAdd != 1:
+						bad = append(bad, fmt.Sprintf("%d calls of stats.add per record, want 1", nAdd))
+					case len(addArgs) != 2:
+						bad = append(bad, "unexpected stats.add arity")
+					default:
 						for i, n := range []string{"vals", "Defs"} {
-							sl, ok := args[i+1].(*ssa.Slice)
 							okArg := false
-							if ok && sl.High == nil {
-								if ex, ok := sl.X.(*ssa.Extract); ok && ex.Tuple == ssa.Value(rd) && ex.Index == i {
-									if f := lenOfRecvField(fi.add, sl.Low); f != nil && f.Name() == n {
-										okArg = true
-									}
+							pre := fmt.Sprintf("%s#%d[len(", rdSym, i)
+							if strings.HasPrefix(addArgs[i], pre) && strings.HasSuffix(addArgs[i], "):]") {
+								inner := strings.TrimSuffix(strings.TrimPrefix(addArgs[i], pre), "):]")
+								if strings.HasPrefix(inner, "old(recv.") && lastComp(inner) == n {
+									okArg = true
 								}
 							}
 							if !okArg {
-								bad = append(bad, fmt.Sprintf("the statistics receive %s, want only this record's part of the shredder's result %d (result[len(f.%s):]): everything else has been counted by earlier Adds", symExpr(args[i+1], 0), i, n))
-							}
-						}
-						// lengths are those before the update: the stats call precedes the stores (same block order)
-						for _, b2 := range fi.add.Blocks {
-							for _, ins2 := range b2.Instrs {
-								if st, ok := ins2.(*ssa.Store); ok {
-									if f := fieldOf(st.Addr); f != nil && (f.Name() == "vals" || f.Name() == "Defs") && dominatesInstr(st, cl) {
-										bad = append(bad, "f."+f.Name()+" is updated before the statistics take len(f."+f.Name()+") as the start of the record's part")
-									}
-								}
+								bad = append(bad, fmt.Sprintf("the statistics receive %s, want only this record's part of the shredder's result %d (result[len(f.%s before the call):]): everything else has been counted by earlier Adds", addArgs[i], i, n))
 							}
 						}
 					}
-				}
-				if adds != 1 {
-					bad = append(bad, fmt.Sprintf("%d calls of stats.add per record, want 1", adds))
 				}
 				if len(bad) > 0 {
 					r.bad(rule, key, pos, strings.Join(bad, "; "))
@@ -328,7 +308,7 @@ func runFT(c *Ctx, rule string, which map[string]bool) {
 						if a[0] != rr {
 							bad = append(bad, "GetBools does not read the chunk's bytes returned by DoRead")
 						}
-						if !valuesToRead(fi.read, a[1], optional) {
+						if !valuesToRead(fi.read, a[1], optional) && !symValuesToRead(a[1], optional) {
 							bad = append(bad, "GetBools is asked for "+symExpr(a[1], 0)+" values, want the chunk's value count")
 						}
 						if a[2] != sizes || sizes == nil {
@@ -349,7 +329,7 @@ func runFT(c *Ctx, rule string, which map[string]bool) {
 						decided = true
 						if n == nil {
 							bad = append(bad, "the value loop: "+why)
-						} else if !valuesToRead(fi.read, n, optional) {
+						} else if !valuesToRead(fi.read, n, optional) && !symValuesToRead(n, optional) {
 							bad = append(bad, "the value loop runs "+symExpr(n, 0)+" times, want once per value of the chunk")
 						}
 					}
@@ -364,7 +344,7 @@ func runFT(c *Ctx, rule string, which map[string]bool) {
 								continue
 							}
 							decided = true
-							if !valuesToRead(fi.read, ms.Len, optional) {
+							if !valuesToRead(fi.read, ms.Len, optional) && !symValuesToRead(ms.Len, optional) {
 								bad = append(bad, "Read decodes "+symExpr(ms.Len, 0)+" values, want the chunk's value count")
 							}
 						}
@@ -389,65 +369,42 @@ func runFT(c *Ctx, rule string, which map[string]bool) {
 				r.undecided(rule, key, "", "no Schema method")
 				continue
 			}
-			var bad []string
-			seen := map[string]bool{}
-			for _, b := range fn.Blocks {
-				for _, ins := range b.Instrs {
-					st, ok := ins.(*ssa.Store)
-					if !ok {
-						continue
-					}
-					f := fieldOf(st.Addr)
-					if f == nil || f.Pkg() == nil || f.Pkg().Path() != rtPath {
-						continue
-					}
-					seen[f.Name()] = true
-					val := st.Val
-					if ct, ok := val.(*ssa.ChangeType); ok {
-						val = ct.X
-					}
-					switch f.Name() {
-					case "Name", "Path":
-						call, ok := val.(*ssa.Call)
-						if !ok || call.Call.StaticCallee() == nil || call.Call.StaticCallee().Name() != f.Name() {
-							bad = append(bad, f.Name()+" is "+symExpr(val, 0)+", want f."+f.Name()+"()")
-						}
-					case "RepetitionType":
-						if optional {
-							if rf := recvFieldLoad(fn, val); rf == nil || rf.Name() != "RepetitionType" {
-								bad = append(bad, "RepetitionType is "+symExpr(val, 0)+", want the column's own (f.RepetitionType, chosen from the last element of its repetition types): a repeated leaf would be declared with another repetition")
-							}
-						} else if g, ok := val.(*ssa.Function); !ok || g.Name() != "RepetitionRequired" {
-							bad = append(bad, "RepetitionType of a required column is "+symExpr(val, 0)+", want parquet.RepetitionRequired")
-						}
-					case "Types":
-						if optional {
-							if rf := recvFieldLoad(fn, val); rf == nil || rf.Name() != "Types" {
-								bad = append(bad, "Types is "+symExpr(val, 0)+", want f.Types")
-							}
-						} else {
-							ms, ok := val.(*ssa.MakeSlice)
-							okLen := false
-							if ok {
-								if call, ok := stripConvert(ms.Len).(*ssa.Call); ok {
-									if bi, ok := call.Call.Value.(*ssa.Builtin); ok && bi.Name() == "len" {
-										if pc, ok := call.Call.Args[0].(*ssa.Call); ok && pc.Call.StaticCallee() != nil && pc.Call.StaticCallee().Name() == "Path" {
-											okLen = true
-										}
-									}
-								}
-							}
-							if !okLen {
-								bad = append(bad, "Types of a required column is "+symExpr(val, 0)+", want one REQUIRED (zero) entry per path element")
-							}
-						}
-					}
+			m := symExec(fn)
+			if !m.ok {
+				r.undecided(rule, key, u.Pos(fn.Pos()), "Schema is not a straight-line method")
+				continue
+			}
+			// the fields of the parquet.Field value built (a local cell)
+			got := map[string]string{}
+			for a, v := range m.mem {
+				if strings.HasPrefix(a, "cell:") && strings.Count(a, ".") == 1 {
+					got[a[strings.Index(a, ".")+1:]] = v
 				}
 			}
-			for _, n := range []string{"Name", "Path", "Type", "RepetitionType", "Types"} {
-				if !seen[n] {
-					bad = append(bad, n+" is not set")
+			var bad []string
+			isCall := func(v, name string) bool { return strings.HasPrefix(v, name+"(") }
+			for _, n := range []string{"Name", "Path"} {
+				if !isCall(got[n], n) {
+					bad = append(bad, n+" is "+got[n]+", want f."+n+"()")
 				}
+			}
+			if optional {
+				if v := got["RepetitionType"]; !(strings.HasPrefix(v, "old(recv.") && lastComp(v) == "RepetitionType") {
+					bad = append(bad, "RepetitionType is "+v+", want the column's own (f.RepetitionType, chosen from the last element of its repetition types): a repeated leaf would be declared with another repetition")
+				}
+				if v := got["Types"]; !(strings.HasPrefix(v, "old(recv.") && lastComp(v) == "Types") {
+					bad = append(bad, "Types is "+v+", want f.Types")
+				}
+			} else {
+				if v := got["RepetitionType"]; !strings.HasSuffix(v, ".RepetitionRequired") {
+					bad = append(bad, "RepetitionType of a required column is "+v+", want parquet.RepetitionRequired")
+				}
+				if v := got["Types"]; !(strings.HasPrefix(v, "make(len(Path(") && strings.HasSuffix(v, ")))")) {
+					bad = append(bad, "Types of a required column is "+v+", want one REQUIRED (zero) entry per path element")
+				}
+			}
+			if got["Type"] == "" {
+				bad = append(bad, "Type is not set")
 			}
 			if len(bad) > 0 {
 				r.bad(rule, key, u.Pos(fn.Pos()), strings.Join(bad, "; "))
@@ -563,4 +520,74 @@ func tripCount(iff *ssa.If) (n ssa.Value, isLoop bool, why string) {
 		return first, true, ""
 	}
 	return nil, true, "it does not run a fixed number of times in one of the recognised forms (j = 0; j < N; j++ / k = N; k > 0; k--)"
+}
+
+var reLenRecvField = regexp.MustCompile(`^builtin len\(load\(recv\.(?:\w+\.)*(\w+)\)\)$`)
+
+// symLenField: v is len(f.<...>.F) — directly, through a local copy, or through a one-expression helper method of the
+// column type; returns F.
+func symLenField(v ssa.Value) string {
+	m := reLenRecvField.FindStringSubmatch(symExpr(stripConvert(v), 0))
+	if m == nil {
+		return ""
+	}
+	return m[1]
+}
+
+// f.Values(), or what it is made of: the count of the definition levels held that equal the maximum (LA-nonnull
+// validates the counting function itself)
+var reValuesCall = regexp.MustCompile(`^\(\*github\.com/parsyl/parquet\.OptionalField\)\.(Values\([^()]*\)|\w+\(&?recv\.OptionalField, load\(recv\.OptionalField\.Defs\), (uint8\()?load\(recv\.OptionalField\.MaxLevels\.Def\)\)?\))$`)
+
+// symValuesToRead: the sym form of valuesToRead.
+func symValuesToRead(v ssa.Value, optional bool) bool {
+	s := symExpr(stripConvert(v), 0)
+	const minus = " - builtin len(load(recv.vals)))"
+	if strings.HasPrefix(s, "(") && strings.HasSuffix(s, minus) {
+		s = strings.TrimSuffix(strings.TrimPrefix(s, "("), minus)
+		for strings.HasPrefix(s, "int(") && strings.HasSuffix(s, ")") {
+			s = strings.TrimSuffix(strings.TrimPrefix(s, "int("), ")")
+		}
+	}
+	if optional {
+		return reValuesCall.MatchString(s)
+	}
+	return s == "param:pg.N" || regexp.MustCompile(`^param:\w+\.N$`).MatchString(s)
+}
+
+// symCeilDiv8: v = ceil(len(f.vals)/8) written as (n+7)/8 or (n+7)>>3 (possibly in a helper method).
+func symCeilDiv8(v ssa.Value) bool {
+	s := symExpr(stripConvert(v), 0)
+	const L = "builtin len(load(recv.vals))"
+	for _, f := range []string{"((" + L + " + 7) / 8)", "((7 + " + L + ") / 8)", "((" + L + " + 7) >> 3)", "((7 + " + L + ") >> 3)"} {
+		if s == f {
+			return true
+		}
+	}
+	return false
+}
+
+// throughHelperResult: when v is the result of a helper method called on the same receiver, the value that helper returns
+// (single return statement) and the helper; otherwise v itself.
+func throughHelperResult(u *Universe, fn *ssa.Function, v ssa.Value) (ssa.Value, *ssa.Function) {
+	for i := 0; i < 3; i++ {
+		call, ok := v.(*ssa.Call)
+		if !ok {
+			return v, fn
+		}
+		sc := call.Call.StaticCallee()
+		if sc == nil || !u.InUniverse(sc) || sc.Blocks == nil || sc.Signature.Recv() == nil || len(call.Call.Args) == 0 || len(fn.Params) == 0 || call.Call.Args[0] != ssa.Value(fn.Params[0]) {
+			return v, fn
+		}
+		var rets []*ssa.Return
+		for _, b := range sc.Blocks {
+			if ret, ok := lastInstr(b).(*ssa.Return); ok {
+				rets = append(rets, ret)
+			}
+		}
+		if len(rets) != 1 || len(rets[0].Results) != 1 {
+			return v, fn
+		}
+		v, fn = rets[0].Results[0], sc
+	}
+	return v, fn
 }
